@@ -318,8 +318,9 @@ def targets(ctx):
         out.append(("metrics." + f, q, lambda q=q, kw=kw: ev.call(ctx.fn(q), [M], dict(kw))))
     cmcls = ctx.db.cls(CM)
     for binary in (True, False):
-        for name, mi in sorted(cmcls.methods.items()):
-            if name.startswith("_") or mi.kind != "function":
+        assigned = {n_: None for n_, v_, _a in getattr(cmcls, "assigns", []) if isinstance(v_, (ast.Call, ast.Lambda, ast.Name)) and not n_.startswith("_") and n_ not in cmcls.methods}
+        for name, mi in sorted(list(cmcls.methods.items()) + list(assigned.items())):     # methods, and callables bound by class-level assignment (generated aliases)
+            if name.startswith("_") or (mi is not None and mi.kind != "function"):
                 continue
             kw = {"alpha": Sym("alpha", ("float", "notnone"))} if name.endswith("_ci") else {}
 
@@ -385,8 +386,8 @@ def run(ctx, chk, tier):
     positive_control(chk)
     n = purity(ctx, chk)
     global_state_rule(ctx, chk)
-    if n < 150:
-        chk.unknown("R10.1", "only %d callables analysed (floor 150)" % n)
+    if n < 170:
+        chk.unknown("R10.1", "only %d callables analysed (hand-confirmed floor 170 of 177)" % n)
     shapes_and_aliases(ctx, chk)
 
 
